@@ -9,7 +9,7 @@ RULE = ("one-step programs: HKDF digest {sha1,sha256,sha512,sha3_256,blake2b:64}
         "{HMAC-SHA1,-SHA256,-SHA512} x c {1,2,3,4,5,10,100,1000} x dkLen {1,H-1,H,H+1,2H,2H+1,3H+7} x 3 passwords x 3 salts vs hashlib.pbkdf2_hmac, "
         "c = 0 must panic; scrypt every log2N 1..=10 x r 1..=8 x p 1..=4 x dkLen {1,31,32,33,63,64,65,130} and every dkLen 1..=130 on three parameter "
         "sets vs hashlib.scrypt, parameter constructor on every RFC 7914 constraint boundary; non-trivial = every case; distinct = program text"
-        " Also: HKDF handed digest objects that were fed / fed and finalised, with salts and PRKs up to 2B+7 bytes; PBKDF2 with an Hmac that was fed and reset, twice in a row on one Hmac, and with more than 65535 output blocks; the corpus again on the checked-arithmetic build and (SHA-256 / BLAKE2b / scrypt) on the vector builds.")
+        " Also: HKDF handed digest objects that were fed / fed and finalised, with salts and PRKs up to 2B+7 bytes; PBKDF2 with an Hmac that was fed and reset, twice in a row on one Hmac, and with more than 65535 output blocks; every length 0..=2B+1 of HKDF salt / IKM / info / PRK, PBKDF2 password / salt and scrypt password / salt, one at a time; the corpus again on the checked-arithmetic build and (SHA-256 / BLAKE2b / scrypt) on the vector builds.")
 ASSUMPTIONS = ["hashlib.pbkdf2_hmac and hashlib.scrypt (OpenSSL) are correct", "RFC 5869 python model over the RFC 2104 model (validated on RFC 5869 A.1, RFC 4231 #2, RFC 6070 #2, RFC 7914 #2)",
                "password/salt/IKM/info content from the pattern alphabet"]
 
@@ -20,7 +20,7 @@ def builds_needed(tier):
 
 # Own corpus re-run on other builds of the crate (mc/core.py: extra builds). Every observation is compared with the same model.
 def _vec(fname, arg):
-    if fname == "shard_hkdf":
+    if fname in ("shard_hkdf", "shard_everylen"):
         return str(arg).startswith(("sha224", "sha256", "blake2"))
     if fname == "shard_pbkdf2":
         return arg == "sha256"
@@ -35,7 +35,8 @@ def extra_builds(tier):
 def bounds(tier):
     return {"scrypt_log2N": "1..=10" if tier == "thorough" else "1..=6 (+ spot 10)", "scrypt_r": "1..=8 (thorough also 9..=16 at small N)", "scrypt_p": "1..=4 (thorough also 5..=8 at small N)",
             "pbkdf2_c_max": 4096 if tier == "thorough" else 1000, "hkdf_digests": 13 if tier == "thorough" else 5, "hkdf_L_max": "255*HashLen (and +1, 256*HashLen refused)",
-            "used_objects": "HKDF with fed / finalised digests x salts up to 2B+7; PBKDF2 after input+reset, twice on one Hmac", "pbkdf2_blocks_max": 65537}
+            "used_objects": "HKDF with fed / finalised digests x salts up to 2B+7; PBKDF2 after input+reset, twice on one Hmac", "pbkdf2_blocks_max": 65537,
+            "every_length": "0..=2B+1 of salt, IKM, info, PRK (HKDF), password, salt (PBKDF2, scrypt), one input at a time"}
 
 
 def validate_models(tier):
@@ -51,6 +52,7 @@ HK_MORE = ["sha224", "sha384", "sha512_256", "sha3_512", "keccak256", "ripemd160
 def shards(tier):
     sh = [("shard_hkdf", k) for k in (HK + HK_MORE if tier == "thorough" else HK)]
     sh += [("shard_pbkdf2", k) for k in ("sha1", "sha256", "sha512")]
+    sh += [("shard_everylen", k) for k in (HK + HK_MORE if tier == "thorough" else HK)]
     maxn = 10 if tier == "thorough" else 6
     for ln in range(1, maxn + 1):
         sh.append(("shard_scrypt", ln))
@@ -101,6 +103,42 @@ def shard_hkdf(kind, tier):
     # a PRK longer than HashLen is legal ("at least HashLen octets")
     long_prk = pat(6, 3, B + 7)
     cases.append((["hkdf_expand %s %s h:01 %d" % (kind, H(long_prk), 2 * Hn + 1)], [obs_of(macs.hkdf_expand(kind, long_prk, b"\x01", 2 * Hn + 1))], None))
+    ck.run(cases)
+    ck.stats.states = len(cases) + 1
+    return ck.stats
+
+
+def shard_everylen(kind, tier):
+    """every length 0..=2B+1 of each variable-length input, one at a time (every residue of every inner message length modulo the
+    block size of the PRF's hash, on both sides of the key-is-hashed threshold): HKDF salt / IKM / info, PBKDF2 password / salt, and
+    (for sha256) scrypt password / salt"""
+    ck = core.Checker(PROPERTY_ID)
+    _, B, Hn = macs.kind_info(kind)
+    cases = []
+    top = 2 * B + 1
+    for n in range(0, top + 1):
+        a = lambda k, ln: (P(k, 0, ln) if ln else "h:")
+        # IKM
+        for sl in (0, 13):
+            cases.append((["hkdf_extract %s %s %s" % (kind, a(6, sl), a(5, n))], [obs_of(macs.hkdf_extract(kind, pat(6, 0, sl), pat(5, 0, n)))], None))
+        # salt
+        cases.append((["hkdf_extract %s %s %s" % (kind, a(6, n), a(5, 22))], [obs_of(macs.hkdf_extract(kind, pat(6, 0, n), pat(5, 0, 22)))], None))
+        # info (first and later T blocks have different message lengths)
+        prk = pat(6, 5, Hn)
+        cases.append((["hkdf_expand %s %s %s %d" % (kind, H(prk), a(7, n), Hn + 1)], [obs_of(macs.hkdf_expand(kind, prk, pat(7, 0, n), Hn + 1))], None))
+        # PRK length
+        if n >= Hn:
+            lprk = pat(6, 3, n)
+            cases.append((["hkdf_expand %s %s h:01 %d" % (kind, H(lprk), Hn + 1)], [obs_of(macs.hkdf_expand(kind, lprk, b"\x01", Hn + 1))], None))
+        if kind in ("sha1", "sha256", "sha512"):
+            cases.append((["pbkdf2 %s %s %s 1 %d" % (kind, a(5, 8), a(6, n), Hn + 1)], [obs_of(macs.pbkdf2(kind, pat(5, 0, 8), pat(6, 0, n), 1, Hn + 1))], None))
+            cases.append((["pbkdf2 %s %s %s 2 1" % (kind, a(5, n), a(6, 8))], [obs_of(macs.pbkdf2(kind, pat(5, 0, n), pat(6, 0, 8), 2, 1))], None))
+        if kind == "sha256":
+            import hashlib
+            for (pl, sl) in ((n, 8), (8, n)):
+                pw, salt = pat(5, 0, pl), pat(6, 0, sl)
+                exp = hashlib.scrypt(pw, salt=salt, n=2, r=1, p=1, dklen=33)
+                cases.append((["scrypt %s %s 1 1 1 33" % (a(5, pl), a(6, sl))], [obs_of(exp)], None))
     ck.run(cases)
     ck.stats.states = len(cases) + 1
     return ck.stats
